@@ -101,7 +101,7 @@ func (f *frontEnd) run(reqs []feReq) []feRes {
 			in.WriteByte('\n')
 		}
 		cmd := exec.Command("bash", "-c", fmt.Sprintf("ulimit -t 900; exec timeout -s QUIT 1800 %s %s", f.bin, prog))
-		cmd.Env = append(os.Environ(), "GORACE=atexit_sleep_ms=0 halt_on_error=0", "GOTRACEBACK=single")
+		cmd.Env = append(os.Environ(), "GORACE=atexit_sleep_ms=0 halt_on_error=0 exitcode=0", "GOTRACEBACK=single")
 		cmd.Stdin = &in
 		var so, se bytes.Buffer
 		cmd.Stdout, cmd.Stderr = &so, &se
